@@ -16,7 +16,7 @@ from cflib.crtp.crtpstack import CRTPPacket
 class Config:
     def __init__(self, n_log=3, n_param=2, fault_at=None, fault_mode='driver', log_crc=0x11111111, par_crc=0x22222222,
                  needs_resending=False, hold_after=None, dup_notify=False, dup_after=None, mems=(), slow_send=None,
-                 slow_reply=None):
+                 slow_reply=None, sender_fault_on=None):
         self.n_log, self.n_param = n_log, n_param
         self.fault_at, self.fault_mode = fault_at, fault_mode
         self.log_crc, self.par_crc = log_crc, par_crc
@@ -33,6 +33,9 @@ class Config:
         # later (a slow peer / congested downlink).  Every request received is answered, so a request the library
         # re-sends meanwhile is answered twice, both answers late.
         self.slow_reply = slow_reply
+        # [port, n]: the n-th packet of that port handed to send_packet is the one on which the sending-thread fault
+        # happens (instead of counting exchanged packets with fault_at)
+        self.sender_fault_on = sender_fault_on
         self.dup_notify = dup_notify     # firmware re-announces parameter 0 (value-updated notifications) during the download
 
 
@@ -42,6 +45,7 @@ class FakeLink(CRTPDriver):
     instances = []
     connect_raises = None
     fault_spent = False
+    fault_spent_sfo = False
 
     def __init__(self):
         CRTPDriver.__init__(self)
@@ -185,7 +189,14 @@ class FakeLink(CRTPDriver):
                 return
         self.sent.append((pk.port, pk.channel, d))
         self._tick()
-        if (c.fault_at is not None and c.fault_mode == 'sender' and self.count >= c.fault_at and not self.fault_done):
+        sfo = c.sender_fault_on
+        if sfo and pk.port == sfo[0]:
+            self._sfo_n = getattr(self, '_sfo_n', 0) + 1
+        if ((c.fault_at is not None and c.fault_mode == 'sender' and self.count >= c.fault_at and not self.fault_done)
+                or (sfo and pk.port == sfo[0] and self._sfo_n == sfo[1] and not self.fault_done
+                    and not FakeLink.fault_spent_sfo)):
+            if sfo:
+                FakeLink.fault_spent_sfo = True
             # RadioDriver.send_packet: out_queue.put(pk, True, 2) times out, then reports from the sending thread
             self.fault_done = True
             import time
@@ -257,5 +268,6 @@ def install(cfg):
     FakeLink.instances = []
     FakeLink.connect_raises = None
     FakeLink.fault_spent = False
+    FakeLink.fault_spent_sfo = False
     FakeLink.hook = None
     cflib.crtp.CLASSES[:] = [FakeLink]
